@@ -162,6 +162,10 @@ def solo(sc, pre=None, post_step=None, domain=None):
     return a, seam
 
 
+def _solo_outcome(sc):
+    return solo(sc)[0].outcome(with_queries=True)
+
+
 def first_diff(a, b):
     pa, pb = a["points"], b["points"]
     for i, (x, y) in enumerate(zip(pa, pb)):
@@ -304,11 +308,35 @@ def run_c14(sc):
     # (b) isolation
     B = sc.get("B")
     if B is not None:
-        b1, _ = solo(B)
-        bbase = b1.outcome(with_queries=True)
+        # B's solo log is taken in a forked child of its own: by now A has run three times in this process, and state
+        # that PyXAB keeps outside its instances (class attributes, module-level caches) would already be in B's baseline
+        from . import runner
+        bbase = runner.isolated(_solo_outcome, B)
         r = _pyrandom.Random(H(sc.get("sched_seed", 0), "sched"))
+        virtual = bool(sc.get("virtual_rng"))
+        # virtual_rng: every instance has its own generator.  The statement names NumPy's global generator as the one
+        # random source, so two instances that both draw from it necessarily see each other's consumption; to ask
+        # "does anything ELSE leak between instances" on random partitions and VROOM, the scheduler context-switches the
+        # generator: the seam of an actor (its scripted stream, or the saved state of the real global generator) is
+        # installed for the duration of each of its steps.  Each actor then sees exactly the draws of its solo run.
         seam2 = Seam(A["rng"])
-        seam2.install()
+        seams = {"A": seam2, "B": Seam(B["rng"]) if virtual else seam2, "T": Seam(A["rng"]) if virtual else seam2}
+        states = {}
+        current = [None]
+
+        def switch_to(name):
+            if not virtual:
+                return
+            if current[0] is not None:
+                states[current[0]] = np.random.get_state()
+                seams[current[0]].uninstall()
+            current[0] = name
+            if name is not None:
+                seams[name].install()
+                if name in states:
+                    np.random.set_state(states[name])
+        if not virtual:
+            seam2.install()
         try:
             shared = engine.build_domain(A)
             x = Actor(A, domain=shared, name="A")
@@ -322,15 +350,22 @@ def run_c14(sc):
                 if last is not None and z is not last:
                     switches += 1
                 last = z
+                switch_to(z.name)
                 z.step()
                 if third and r.random() < 0.05:
+                    switch_to("T")
                     t = Actor(B if r.random() < 0.5 else A, name="T")
                     for _ in range(r.randint(1, 7)):
                         if not t.done:
                             t.step()
                     stats["third-party-instances"] += 1
+            switch_to(None)
         finally:
-            seam2.uninstall()
+            for sm in set(seams.values()):
+                sm.uninstall()
+        if virtual:
+            stats["interleaved-pairs(virtual-rng)"] += 1
+            fired["generator-context-switch"] += switches
         stats["interleaved-pairs"] += 1
         stats["scheduler-switches"] += switches
         fired["interleaving"] += switches
